@@ -34,6 +34,10 @@ func main() {
 		os.Exit(2)
 	}
 	prop := os.Args[1]
+	if prop == "C15child" && len(os.Args) == 3 {
+		c15Child(os.Args[2])
+		return
+	}
 	fs := flag.NewFlagSet(prop, flag.ExitOnError)
 	seed := fs.Uint64("seed", 1, "PRNG seed")
 	tier := fs.String("tier", "quick", "quick|thorough")
